@@ -23,14 +23,22 @@ def gen_field(rng, depth, leaf):
     if depth <= 0 or r < 0.35:
         return rng.choice(leaf)
     if r < 0.65:
-        return [gen_field(rng, depth - 1, leaf) for _ in range(rng.choice([0, 1, 2]))]
-    return {k: gen_field(rng, depth - 1, leaf) for k in rng.sample(["p", "q", "r"], k=rng.choice([0, 1, 2]))}
+        xs = [gen_field(rng, depth - 1, leaf) for _ in range(rng.choice([0, 1, 2]))]
+        if rng.random() < 0.3:
+            xs.insert(rng.randrange(len(xs) + 1), None)          # null inside a list: List[Optional[...]]
+        return xs
+    d = {k: gen_field(rng, depth - 1, leaf) for k in rng.sample(["p", "q", "r"], k=rng.choice([0, 1, 2]))}
+    if rng.random() < 0.25:
+        d["z"] = None                                            # null inside a mapping: Dict[str, Optional[...]]
+    return d
 
 
 def same_shape(rng, v, leaf):
     """another value of the same nesting shape (so that the field stays a chain over one pseudo-type)"""
     if isinstance(v, str):
         return rng.choice(leaf)
+    if v is None:
+        return None
     if isinstance(v, list):
         return [same_shape(rng, x, leaf) for x in v] if rng.random() < .7 else []
     return {k: same_shape(rng, x, leaf) for k, x in v.items()} if rng.random() < .7 else {}
@@ -161,6 +169,8 @@ def check_case(samples, job, registry):
             kwargs[prepare_label(k, convert_unicode=True, to_snake_case=True)] = v
         try:
             obj = cls(**kwargs)
+        except stages.TooCostly:
+            raise
         except Exception as e:  # noqa
             return {"kind": "construction-raises", "sample": s, "observed": f"{type(e).__name__}: {e}", "text": text[:3000]}
         for name, ann in hs.items():
@@ -202,6 +212,9 @@ def falsify(ctx):
         samples = gen_samples(rng, LEAVES[:2] if (job["fw"] == "attrs" and not job["postInit"]) else LEAVES)
         try:
             hit = check_case(samples, job, registry)
+        except stages.TooCostly:
+            ctx.count("skip:too-costly")
+            continue
         except Exception as e:  # noqa
             hit = {"kind": "pipeline-raises", "observed": f"{type(e).__name__}: {e}"}
         enc = repr(samples)
@@ -214,6 +227,8 @@ def falsify(ctx):
     # the listed known finding: attrs per-field converter for boolean strings calls the class, not the parser
     try:
         f3 = check_f3(registry)
+    except stages.TooCostly:
+        raise
     except Exception as e:  # noqa
         f3 = {"kind": "F3-attrs-bool-converter", "observed": f"{type(e).__name__}: {e}"}
     if f3:
@@ -227,6 +242,8 @@ def check_f3(registry):
     ns = real.load_module(text)
     try:
         obj = ns["Root"](flag="true")
+    except stages.TooCostly:
+        raise
     except Exception as e:  # noqa
         return {"kind": "F3-attrs-bool-converter", "samples": samples, "job": job,
                 "observed": f"constructing from 'true' raises {type(e).__name__}: {e}"}
@@ -236,5 +253,7 @@ def check_f3(registry):
 def replay(ctx, hit):
     try:
         return check_case(hit["samples"], hit["job"], stages.make_registry())
+    except stages.TooCostly:
+        raise
     except Exception as e:  # noqa
         return {"kind": "pipeline-raises", "observed": f"{type(e).__name__}: {e}"}
